@@ -1766,3 +1766,155 @@ Proof.
   { repeat split; [exact Hl|exact Hv|rewrite <- Ecs; exact Hcs]. }
   destruct (B Hr t Ht) as [B1 B2]. split; [exact B1|exact B2].
 Qed.
+
+(* ------------------------------------------------------------------ *)
+(* Theorem 6: the forced vote *)
+
+Ltac spec_hyps_at t :=
+  lazymatch type of t with
+  | ((_ =? _) = false) -> _ => spec_hyps_at constr:(t (@eq_refl bool false))
+  | _ => t
+  end.
+
+(* (a) hup(true) never queues a pre-vote request *)
+Theorem forced_vote_no_prevote r r' :
+  hup r true = Ok r' ->
+  sel MsgRequestPreVote (r_msgs r') = sel MsgRequestPreVote (r_msgs r).
+Proof.
+  intros H.
+  let L := spec_hyps_at constr:(hup_wf MsgRequestPreVote) in
+  apply (L r true r' (or_introl eq_refl)) in H.
+  apply wf_sel in H. exact H.
+Qed.
+
+(* (b) every vote request it queues carries the transfer context and the new term *)
+Lemma send_vote_requests_spec vote_msg t cmt cmt_term tl :
+  forall ids r r', send_vote_requests ids r vote_msg t cmt cmt_term tl = Ok r' ->
+  ctl r' = ctl r /\
+  exists new, r_msgs r' = r_msgs r ++ new /\
+    Forall (fun x => m_type x = vote_msg /\ m_to x <> r_id r /\ In (m_to x) ids /\
+                     m_context x = (if tl then CAMPAIGN_TRANSFER else []) /\
+                     (is_vote_type vote_msg = true -> m_term x = t)) new.
+Proof.
+  induction ids as [|id rest IH]; intros r r' H; cbn [send_vote_requests] in H.
+  - inversion H; subst. split; [reflexivity|]. exists []. rewrite app_nil_r. auto.
+  - destruct (id =? r_id r) eqn:Eid.
+    + apply IH in H. destruct H as (A & new & B & C0). split; [exact A|].
+      exists new. split; [exact B|]. eapply Forall_impl; [|exact C0].
+      cbn. intros x (X1 & X2 & X3 & X4). split; [exact X1|]. split; [exact X2|].
+      split; [right; exact X3|exact X4].
+    + inv_bind H. inv_bind H. apply send_spec in Hx0.
+      destruct Hx0 as (x' & -> & S1 & S2 & S3 & _ & S5 & _).
+      apply IH in H. destruct H as (A & new & B & C0).
+      split; [rewrite A; reflexivity|].
+      exists (x' :: new). split.
+      { rewrite B. cbn. rewrite <- app_assoc. reflexivity. }
+      constructor.
+      * apply N.eqb_neq in Eid.
+        assert (T1 : m_type x' = vote_msg) by (destruct tl; exact S1).
+        assert (T2 : m_to x' = id) by (destruct tl; exact S2).
+        split; [exact T1|]. split; [congruence|]. split; [left; congruence|]. split.
+        { destruct tl; exact S3. }
+        intros K. destruct tl; cbn in S5; rewrite (S5 K); reflexivity.
+      * eapply Forall_impl; [|exact C0]. cbn. intros y (X1 & X2 & X3 & X4).
+        split; [exact X1|]. split; [exact X2|]. split; [right; exact X3|exact X4].
+Qed.
+
+Theorem forced_vote_requests r r' :
+  hup r true = Ok r' ->
+  exists new, sel MsgRequestVote (r_msgs r') = sel MsgRequestVote (r_msgs r) ++ new /\
+    Forall (fun x => m_type x = MsgRequestVote /\ m_context x = CAMPAIGN_TRANSFER /\
+                     m_term x = r_term r' /\ m_to x <> r_id r') new.
+Proof.
+  intros H. unfold hup in H.
+  destruct (is_leader r); [inversion H; subst; exists []; rewrite app_nil_r; auto|].
+  inv_bind H. destruct x; [inversion H; subst; exists []; rewrite app_nil_r; auto|].
+  unfold campaign_real in H. inv_bind H. inv_bind H. destruct x0 as [r2 res].
+  let L := spec_hyps_at constr:(become_candidate_wf MsgRequestVote) in apply L in Hx0.
+  let L := spec_hyps_at constr:(poll_gen_wf MsgRequestVote) in
+    apply L in Hx1; [|intros a b K; discriminate K].
+  apply wf_sel in Hx0. apply wf_sel in Hx1.
+  assert (Hnone : res = VoteWon -> r' = r2 ->
+     exists new, sel MsgRequestVote (r_msgs r') = sel MsgRequestVote (r_msgs r) ++ new /\
+       Forall (fun x => m_type x = MsgRequestVote /\ m_context x = CAMPAIGN_TRANSFER /\
+                        m_term x = r_term r' /\ m_to x <> r_id r') new).
+  { intros _ ->. exists []. rewrite app_nil_r. split; [congruence|constructor]. }
+  assert (Hsend : forall ci,
+     send_vote_requests (voter_ids (conf_of r2)) r2 MsgRequestVote (r_term r2) (fst ci) (snd ci) true
+       = Ok r' ->
+     exists new, sel MsgRequestVote (r_msgs r') = sel MsgRequestVote (r_msgs r) ++ new /\
+       Forall (fun x => m_type x = MsgRequestVote /\ m_context x = CAMPAIGN_TRANSFER /\
+                        m_term x = r_term r' /\ m_to x <> r_id r') new).
+  { intros ci K. apply send_vote_requests_spec in K. destruct K as (A & new & B & C0).
+    apply ctl_fields in A. destruct A as (_ & _ & _ & _ & A5 & _ & A7 & _).
+    exists new. split.
+    - rewrite B, sel_app. f_equal; [congruence|].
+      clear - C0. induction C0 as [|y l (Y1 & _) _ IH]; [reflexivity|].
+      unfold sel in *. cbn [filter]. rewrite Y1. change (MsgRequestVote =? MsgRequestVote) with true.
+      rewrite IH. reflexivity.
+    - eapply Forall_impl; [|exact C0]. cbn. intros y (Y1 & Y2 & _ & Y4 & Y5).
+      repeat split; auto; [rewrite A5; apply Y5; reflexivity|congruence]. }
+  destruct res.
+  - inv_bind H. eapply Hsend; exact H.
+  - inv_bind H. eapply Hsend; exact H.
+  - inversion H; subst. apply Hnone; reflexivity.
+Qed.
+
+(* (c) a higher-term MsgRequestVote with the transfer context is never dropped by the
+   lease: whatever check_quorum / leader_id / election_elapsed say, the receiver moves to
+   the candidate's term as a follower and answers with exactly one vote response
+   (contrast: lease_ignores_vote_requests, where nothing changes and nothing is sent) *)
+Lemma become_follower_term r t l r' : become_follower r t l = Ok r' -> r_term r' = t.
+Proof.
+  unfold become_follower. intros H. inv_bind H. inversion H; subst; clear H. cbn.
+  unfold reset in Hx. destruct (negb (r_term r =? t)) eqn:E; cbn in Hx;
+  match type of Hx with match ?d with _ => _ end = _ => destruct d end;
+    try discriminate; inversion Hx; subst; cbn; [reflexivity|].
+  apply negb_false_iff in E. apply N.eqb_eq in E. exact E.
+Qed.
+
+Lemma maybe_commit_by_vote_follower r m r' :
+  r_state r = Follower -> maybe_commit_by_vote r m = Ok r' -> r_state r' = Follower.
+Proof.
+  intros Hs H. unfold maybe_commit_by_vote in H.
+  destruct ((m_commit m =? 0) || (m_commit_term m =? 0)); [inversion H; subst; exact Hs|].
+  destruct ((m_commit m <=? committed (r_log r)) || is_leader r); [inversion H; subst; exact Hs|].
+  inv_bind H. destruct x as [l' b].
+  destruct (negb b); [inversion H; subst; exact Hs|].
+  change (r_state (r <| r_log := l' |>)) with (r_state r) in H. rewrite Hs in H.
+  cbn in H. inversion H; subst. exact Hs.
+Qed.
+
+Theorem forced_vote_bypasses_lease r m r' c :
+  m_type m = MsgRequestVote -> list_eqb (m_context m) CAMPAIGN_TRANSFER = true ->
+  r_term r < m_term m -> step r m = Ok (r', c) ->
+  r_term r' = m_term m /\ r_state r' = Follower /\
+  exists x, r_msgs r' = r_msgs r ++ [x] /\
+            m_type x = MsgRequestVoteResponse /\ m_to x = m_from m.
+Proof.
+  intros Hty Hctx Hlt H. rewrite step_eq in H.
+  assert (Hpre : step_pre r m = (r0 <- become_follower r (m_term m) INVALID_ID ;; Ok (inr r0))).
+  { unfold step_pre. rewrite Hty, Hctx.
+    assert (E0 : (m_term m =? 0) = false) by (apply N.eqb_neq; lia).
+    assert (E1 : (r_term r <? m_term m) = true) by (apply N.ltb_lt; exact Hlt).
+    rewrite E0, E1. reflexivity. }
+  rewrite Hpre in H. inv_bind H. inv_bind Hx. inversion Hx; subst; clear Hx.
+  pose proof (become_follower_term _ _ _ _ Hx0) as Ht.
+  pose proof (become_follower_clears _ _ _ _ Hx0) as (_ & _ & Hs).
+  pose proof (become_follower_msgs_log _ _ _ _ Hx0) as (Hm & _).
+  unfold step_main in H. rewrite Hty in H.
+  change (MsgRequestVote =? MsgHup) with false in H.
+  change (MsgRequestVote =? MsgRequestVote) with true in H. cbn [orb] in H.
+  inv_bind H. inv_bind H. cbn in Hx1. inversion Hx1; subst x1; clear Hx1.
+  match type of H with (if ?c then _ else _) = _ => destruct c end.
+  - inv_bind H. inversion H; subst; clear H. apply send_spec in Hx1.
+    destruct Hx1 as (y & -> & Y1 & Y2 & _). cbn. repeat split; auto.
+    exists y. rewrite Hm. auto.
+  - inv_bind H. inv_bind H. inv_bind H. inversion H; subst; clear H.
+    apply send_spec in Hx2. destruct Hx2 as (y & -> & Y1 & Y2 & _).
+    pose proof (maybe_commit_by_vote_same_tv _ _ _ Hx3) as [T1 _].
+    pose proof (maybe_commit_by_vote_msgs _ _ _ Hx3) as M1.
+    apply maybe_commit_by_vote_follower in Hx3; [|exact Hs].
+    cbn in T1, M1. repeat split; [congruence|exact Hx3|].
+    exists y. rewrite M1, Hm. auto.
+Qed.
